@@ -206,6 +206,7 @@ func parseProgressiveMp4(w io.Writer, f *mp4.File, maxNrSamples int, codec strin
 		if err != nil {
 			return err
 		}
+		nalus = dropEmptyNalus(nalus) // e.g. from a zero length field
 		switch codec {
 		case "avc", "h.264", "h264":
 			if avcSPS == nil {
@@ -294,6 +295,7 @@ func parseFragmentedMp4(w io.Writer, f *mp4.File, maxNrSamples int, codec string
 		if err != nil {
 			return err
 		}
+		nalus = dropEmptyNalus(nalus) // e.g. from a zero length field
 		switch codec {
 		case "avc", "h.264", "h264":
 			err = printAVCNalus(w, avcSPS, nalus, i+1, s.PresentationTime(), seiLevel, parameterSets, nrRaw)
